@@ -702,4 +702,303 @@ theorem ids_nil_of_no_comps (P : LGraph) (hP : P.WF) (h : (comps P).length = 0) 
     unfold comps at this
     rw [this] at hc; cases hc
 
+/-! ## completeness of the component-aware search -/
+
+/-- Restriction of a mapping (a dict) to the pattern nodes in `c`. -/
+def restrict (m : Mapping) (c : List Nat) : Mapping := m.filter fun x => c.contains x.1
+
+theorem mem_restrict (m : Mapping) (c : List Nat) (x : Nat × Nat) : x ∈ restrict m c ↔ x ∈ m ∧ x.1 ∈ c := by
+  unfold restrict; simp
+
+theorem restrict_fst (m : Mapping) (c : List Nat) :
+    (restrict m c).map (·.1) = (m.map (·.1)).filter c.contains := by
+  unfold restrict
+  rw [List.filter_map]
+  rfl
+
+theorem restrict_get? (m : Mapping) (c : List Nat) (p : Nat) (hp : p ∈ c) : (restrict m c).get? p = m.get? p := by
+  unfold Mapping.get? restrict
+  rw [find?_filter_of_imp]
+  intro a _ ha
+  simp only [decide_eq_true_eq] at ha
+  simp [ha, hp]
+
+/-- An edge of the graph between two nodes of `c` is the same edge of the sub-graph. -/
+theorem sub_edge?_of (G : LGraph) (c : List Nat) (u v : Nat) (a : Attrs) (hu : u ∈ c) (hv : v ∈ c)
+    (h : G.edge? u v = some a) : (sub G c).edge? u v = some a := by
+  rw [← h]
+  unfold LGraph.edge? sub
+  simp only
+  rw [find?_filter_of_imp]
+  intro x _ hx
+  simp only [decide_eq_true_eq] at hx
+  rcases hx with ⟨h1, h2⟩ | ⟨h1, h2⟩ <;> simp [h1, h2, hu, hv]
+
+theorem mono_keys_nodup {sel : Sel} {H P : LGraph} {m : Mapping} (hP : P.WF) (hm : IsMono sel H P m) :
+    (m.map (·.1)).Nodup := by
+  have e : m.map (·.1) = P.ids := hm.1
+  rw [e]; exact hP.1
+
+theorem mono_get?_total {sel : Sel} {H P : LGraph} {m : Mapping} (hm : IsMono sel H P m) (p : Nat) (hp : p ∈ P.ids) :
+    ∃ h, m.get? p = some h ∧ (p, h) ∈ m := by
+  have e : m.map (·.1) = P.ids := hm.1
+  exact get?_isSome_of_mem_fst m p (e ▸ hp)
+
+/-- A monomorphism sends adjacent pattern nodes to adjacent host nodes. -/
+theorem mono_adj {sel : Sel} {H P : LGraph} {m : Mapping} (hH : H.WF) (hm : IsMono sel H P m) (p q : Nat)
+    (h : Adj P.ids (endpoints P) p q) :
+    ∃ hp hq, m.get? p = some hp ∧ m.get? q = some hq ∧ Adj H.ids (endpoints H) hp hq := by
+  obtain ⟨-, -, hpq⟩ := h
+  have key : ∀ e ∈ P.edges, ∃ hu hv, m.get? e.1 = some hu ∧ m.get? e.2.1 = some hv ∧ Adj H.ids (endpoints H) hu hv := by
+    intro e he
+    obtain ⟨hu, hv, ea, g1, g2, g3, -⟩ := hm.2.2.2 e he
+    obtain ⟨e', he', -, hends⟩ := edge?_some_mem H hu hv ea g3
+    obtain ⟨a, b, -⟩ := hH.2.1 e' he'
+    have hmem := mem_endpoints H e' he'
+    refine ⟨hu, hv, g1, g2, ?_⟩
+    rcases hends with ⟨h1, h2⟩ | ⟨h1, h2⟩
+    · exact ⟨h1 ▸ a, h2 ▸ b, Or.inl (h1 ▸ h2 ▸ hmem)⟩
+    · exact ⟨h2 ▸ b, h1 ▸ a, Or.inr (h1 ▸ h2 ▸ hmem)⟩
+  rcases hpq with hpq | hpq
+  · obtain ⟨e, he, hee⟩ := List.mem_map.1 hpq
+    obtain ⟨rfl, rfl⟩ := Prod.mk.inj hee
+    obtain ⟨hu, hv, g1, g2, g3⟩ := key e he
+    exact ⟨hu, hv, g1, g2, g3⟩
+  · obtain ⟨e, he, hee⟩ := List.mem_map.1 hpq
+    obtain ⟨rfl, rfl⟩ := Prod.mk.inj hee
+    obtain ⟨hu, hv, g1, g2, g3⟩ := key e he
+    exact ⟨hv, hu, g2, g1, g3.symm⟩
+
+/-- **Connectedness is preserved by a monomorphism.** -/
+theorem mono_conn {sel : Sel} {H P : LGraph} {m : Mapping} (hH : H.WF) (hm : IsMono sel H P m) (p q hp : Nat)
+    (hc : Conn P.ids (endpoints P) p q) (hg : m.get? p = some hp) :
+    ∃ hq, m.get? q = some hq ∧ Conn H.ids (endpoints H) hp hq := by
+  induction hc with
+  | refl => exact ⟨hp, hg, Conn.refl _⟩
+  | tail _ hab ih =>
+    obtain ⟨hb, g1, c1⟩ := ih
+    obtain ⟨hb', hc', g2, g3, hadj⟩ := mono_adj hH hm _ _ hab
+    rw [g1] at g2; cases g2
+    exact ⟨hc', g3, c1.trans (Conn.of_adj hadj)⟩
+
+/-- The image of a pattern component lies inside one host component. -/
+theorem mono_component_image {sel : Sel} {H P : LGraph} {m : Mapping} (hH : H.WF) (hP : P.WF) (hm : IsMono sel H P m)
+    (pc : List Nat) (hpc : pc ∈ comps P) :
+    ∃ (i : Nat) (hc : List Nat), (comps H)[i]? = some hc ∧ ∀ x ∈ restrict m pc, x.2 ∈ hc := by
+  obtain ⟨p0, hp0⟩ := List.exists_mem_of_ne_nil _ (components_ne_nil P.ids (endpoints P) pc hpc)
+  have hp0n : p0 ∈ P.ids := (components_cover P.ids (endpoints P) hP.1 p0).2 ⟨pc, hpc, hp0⟩
+  obtain ⟨h0, g0, hm0⟩ := mono_get?_total hm p0 hp0n
+  have hh0 : h0 ∈ H.ids := (hm.2.2.1 _ hm0).1
+  obtain ⟨hc, hhc, hh0c⟩ := (components_cover H.ids (endpoints H) hH.1 h0).1 hh0
+  obtain ⟨i, hi, rfl⟩ := List.getElem_of_mem hhc
+  refine ⟨i, _, List.getElem?_eq_getElem hi, ?_⟩
+  intro x hx
+  obtain ⟨hxm, hxc⟩ := (mem_restrict m pc x).1 hx
+  have hconn := ((mem_components_iff P.ids (endpoints P) hP.1 pc p0 hpc hp0 x.1).1 hxc).2
+  obtain ⟨hq, g1, c1⟩ := mono_conn hH hm p0 x.1 h0 hconn g0
+  have g1' := get?_of_mem m (mono_keys_nodup hP hm) x.1 x.2 hxm
+  rw [g1'] at g1; cases g1
+  exact (mem_components_iff H.ids (endpoints H) hH.1 _ h0 hhc hh0c x.2).2 ⟨(hm.2.2.1 x hxm).1, c1⟩
+
+/-- **Decomposition lemma**: a monomorphism restricted to a set of pattern nodes whose image lies in
+`hc` is a monomorphism of the sub-graphs. -/
+theorem restrict_isMono {sel : Sel} {H P : LGraph} {m : Mapping} (hm : IsMono sel H P m) (pc hc : List Nat)
+    (himg : ∀ x ∈ restrict m pc, x.2 ∈ hc) : IsMono sel (sub H hc) (sub P pc) (restrict m pc) := by
+  refine ⟨?_, ?_, ?_, ?_⟩
+  · have e : m.map (·.1) = P.ids := hm.1
+    rw [restrict_fst, sub_ids, e]
+  · exact ((List.filter_sublist (l := m)).map _).nodup hm.2.1
+  · intro x hx
+    obtain ⟨hxm, hxc⟩ := (mem_restrict m pc x).1 hx
+    obtain ⟨a, b⟩ := hm.2.2.1 x hxm
+    refine ⟨(mem_sub_ids H hc _).2 ⟨a, himg x hx⟩, ?_⟩
+    rw [sub_attrs H hc x.2 (himg x hx), sub_attrs P pc x.1 hxc]
+    exact b
+  · intro e he
+    obtain ⟨he', h1, h2⟩ := (mem_sub_edges P pc e).1 he
+    obtain ⟨hu, hv, ea, g1, g2, g3, g4⟩ := hm.2.2.2 e he'
+    refine ⟨hu, hv, ea, by rw [restrict_get? m pc _ h1]; exact g1, by rw [restrict_get? m pc _ h2]; exact g2, ?_, g4⟩
+    refine sub_edge?_of H hc hu hv ea ?_ ?_ g3
+    · exact himg (e.1, hu) ((mem_restrict m pc _).2 ⟨mem_of_get? _ _ _ g1, h1⟩)
+    · exact himg (e.2.1, hv) ((mem_restrict m pc _).2 ⟨mem_of_get? _ _ _ g2, h2⟩)
+
+/-- A monomorphism needs at least as many host nodes as pattern nodes. -/
+theorem isMono_nodes_le {sel : Sel} {H P : LGraph} {m : Mapping} (hm : IsMono sel H P m) :
+    P.nodes.length ≤ H.nodes.length := by
+  have hsub : m.map (·.2) ⊆ H.ids := by
+    intro h hh
+    obtain ⟨x, hx, rfl⟩ := List.mem_map.1 hh
+    exact (hm.2.2.1 x hx).1
+  have := (List.subperm_of_subset hm.2.1 hsub).length_le
+  have e : (m.map (·.1)).length = P.ids.length := by
+    have e : m.map (·.1) = P.ids := hm.1
+    rw [e]
+  simp only [List.length_map, LGraph.ids] at this e ⊢
+  omega
+
+/-- The restricted monomorphism is one of the per-component embeddings the search computes. -/
+theorem restrict_mem_level {sel : Sel} {H P : LGraph} {m : Mapping} (hP : P.WF) (hm : IsMono sel H P m)
+    (pc hc : List Nat) (i : Nat) (hi : (comps H)[i]? = some hc) (himg : ∀ x ∈ restrict m pc, x.2 ∈ hc) :
+    (i, restrict m pc) ∈ perComponent sel ((comps H).map (sub H)) (sub P pc) := by
+  have hr := restrict_isMono hm pc hc himg
+  refine (mem_perComponent sel _ _ i _).2 ⟨sub H hc, ?_, isMono_nodes_le hr, ?_⟩
+  · rw [List.getElem?_map, hi]; rfl
+  · exact (mem_allMonos sel _ _ (sub_WF P hP pc) _).2 hr
+
+/-! ### the sorted levels are the levels of a permutation of the pattern components -/
+
+theorem insertByLen_map {α β : Type} (f : β → List α) (x : β) (ys : List β) :
+    ∃ zs : List β, zs.Perm (x :: ys) ∧ insertByLen (f x) (ys.map f) = zs.map f := by
+  induction ys with
+  | nil => exact ⟨[x], List.Perm.refl _, rfl⟩
+  | cons y ys ih =>
+    simp only [List.map_cons, insertByLen]
+    split
+    · exact ⟨x :: y :: ys, List.Perm.refl _, rfl⟩
+    · obtain ⟨zs, hz, he⟩ := ih
+      exact ⟨y :: zs, (List.Perm.cons y hz).trans (List.Perm.swap x y ys), by rw [he]; rfl⟩
+
+theorem sortByLen_map {α β : Type} (f : β → List α) (xs : List β) :
+    ∃ ys : List β, ys.Perm xs ∧ sortByLen (xs.map f) = ys.map f := by
+  unfold sortByLen
+  have : ∀ init : List β, ∃ ys : List β, ys.Perm (xs ++ init) ∧
+      (xs.map f).foldl (fun acc x => insertByLen x acc) (init.map f) = ys.map f := by
+    induction xs with
+    | nil => intro init; exact ⟨init, List.Perm.refl _, rfl⟩
+    | cons x xs ih =>
+      intro init
+      obtain ⟨zs, hz, he⟩ := insertByLen_map f x init
+      obtain ⟨ys, hy, hf⟩ := ih zs
+      refine ⟨ys, hy.trans ?_, ?_⟩
+      · exact (List.Perm.append_left xs hz).trans List.perm_middle
+      · simp only [List.map_cons, List.foldl_cons]
+        rw [he]; exact hf
+  obtain ⟨ys, hy, hf⟩ := this []
+  exact ⟨ys, by simpa using hy, hf⟩
+
+/-- One pick per level, given by a function of the level's pattern component. -/
+theorem picks_of_map (f : List Nat → List (Nat × Mapping)) (pk : List Nat → Nat × Mapping) :
+    ∀ (ys : List (List Nat)) (used : List Nat) (acc : Mapping),
+      (∀ y ∈ ys, pk y ∈ f y) →
+      ys.Pairwise (fun a b => (pk a).1 ≠ (pk b).1 ∧ KeyDisj (pk b).2 (pk a).2) →
+      (∀ y ∈ ys, (pk y).1 ∉ used ∧ KeyDisj (pk y).2 acc) →
+      Picks (ys.map f) used acc (ys.map pk) := by
+  intro ys
+  induction ys with
+  | nil => intro _ _ _ _ _; trivial
+  | cons y ys ih =>
+    intro used acc h1 h2 h3
+    rw [List.pairwise_cons] at h2
+    refine ⟨h1 y List.mem_cons_self, (skip_false_iff _ _ _ _).2 (h3 y List.mem_cons_self), ?_⟩
+    refine ih _ _ (fun z hz => h1 z (List.mem_cons_of_mem _ hz)) h2.2 ?_
+    intro z hz
+    obtain ⟨a, b⟩ := h3 z (List.mem_cons_of_mem _ hz)
+    obtain ⟨c, d⟩ := h2.1 z hz
+    refine ⟨?_, ?_⟩
+    · intro hmem
+      rcases List.mem_cons.1 hmem with e | e
+      · exact c e.symm
+      · exact a e
+    · intro u hu v hv
+      rcases List.mem_append.1 hv with hv | hv
+      · exact b u hu v hv
+      · exact d u hu v hv
+
+/-- `get?` in a sub-dict of a dict with distinct keys. -/
+theorem get?_of_subset (A m : Mapping) (hsub : ∀ x ∈ A, x ∈ m) (hn : (m.map (·.1)).Nodup) (p h : Nat)
+    (hA : (p, h) ∈ A) : A.get? p = some h := by
+  obtain ⟨h', g, hmem⟩ := get?_isSome_of_mem_fst A p (List.mem_map.2 ⟨(p, h), hA, rfl⟩)
+  have := List.inj_on_of_nodup_map hn (hsub _ hmem) (hsub _ hA) rfl
+  rw [g, (Prod.mk.inj this).2]
+
+/-- Reading a dict that agrees with `m` on the pattern nodes gives back `m`. -/
+theorem normalize_eq_of_get? (P : LGraph) (A m : Mapping) (hfst : m.map (·.1) = P.ids)
+    (h : ∀ x ∈ m, A.get? x.1 = some x.2) : normalize P A = m := by
+  unfold normalize
+  rw [← hfst, List.filterMap_map]
+  have : ∀ x ∈ m, ((fun p => (A.get? p).map fun h => (p, h)) ∘ fun x : Nat × Nat => x.1) x = some x := by
+    intro x hx
+    simp only [Function.comp, h x hx, Option.map_some]
+  rw [List.filterMap_congr this]
+  exact List.filterMap_some
+
+/-- **Completeness of the unlimited component-aware enumeration.** -/
+theorem mem_compEnum_of_mono (sel : Sel) (H P : LGraph) (hH : H.WF) (hP : P.WF) (m : Mapping)
+    (hm : IsMono sel H P m) (hd : DistinctComponents H P m) : m ∈ compEnum sel H P := by
+  have hkn := mono_keys_nodup hP hm
+  have key : ∀ pc, pc ∈ comps P → ∃ (i : Nat) (hc : List Nat), (comps H)[i]? = some hc ∧ ∀ x ∈ restrict m pc, x.2 ∈ hc :=
+    fun pc hpc => mono_component_image hH hP hm pc hpc
+  choose! idx hcOf hidx himg using key
+  let f : List Nat → List (Nat × Mapping) := fun pc => perComponent sel ((comps H).map (sub H)) (sub P pc)
+  let pk : List Nat → Nat × Mapping := fun pc => (idx pc, restrict m pc)
+  obtain ⟨ys, hperm, hsort⟩ := sortByLen_map f (comps P)
+  have hlev : sortByLen (perCc sel H P) = ys.map f := by
+    rw [← hsort]; unfold perCc; rw [List.map_map]; rfl
+  have hys : ∀ y ∈ ys, y ∈ comps P := fun y hy => hperm.mem_iff.1 hy
+  have hdisj : ys.Pairwise List.Disjoint := by
+    have hsymm : ∀ a b : List Nat, List.Disjoint a b → List.Disjoint b a := fun a b h x hx hy => h hy hx
+    exact (hperm.pairwise_iff (fun {a b} h => hsymm a b h)).2 (components_disjoint P.ids (endpoints P) hP.1)
+  have hpicks : Picks (ys.map f) [] [] (ys.map pk) := by
+    refine picks_of_map f pk ys [] [] ?_ ?_ ?_
+    · intro y hy
+      exact restrict_mem_level hP hm y (hcOf y) (idx y) (hidx y (hys y hy)) (himg y (hys y hy))
+    · refine hdisj.imp_of_mem ?_
+      intro a b ha hb hab
+      refine ⟨?_, ?_⟩
+      · intro heq
+        change idx a = idx b at heq
+        have hca := hidx a (hys a ha)
+        have hcb := hidx b (hys b hb)
+        rw [heq, hcb] at hca
+        have hceq : hcOf a = hcOf b := (Option.some.inj hca).symm
+        obtain ⟨p, hp⟩ := List.exists_mem_of_ne_nil _ (components_ne_nil P.ids (endpoints P) a (hys a ha))
+        obtain ⟨q, hq⟩ := List.exists_mem_of_ne_nil _ (components_ne_nil P.ids (endpoints P) b (hys b hb))
+        have hpn : p ∈ P.ids := (components_cover P.ids (endpoints P) hP.1 p).2 ⟨a, hys a ha, hp⟩
+        have hqn : q ∈ P.ids := (components_cover P.ids (endpoints P) hP.1 q).2 ⟨b, hys b hb, hq⟩
+        obtain ⟨vp, gp, mp⟩ := mono_get?_total hm p hpn
+        obtain ⟨vq, gq, mq⟩ := mono_get?_total hm q hqn
+        have hvp : vp ∈ hcOf b := hceq ▸ himg a (hys a ha) (p, vp) ((mem_restrict m a _).2 ⟨mp, hp⟩)
+        have hvq : vq ∈ hcOf b := himg b (hys b hb) (q, vq) ((mem_restrict m b _).2 ⟨mq, hq⟩)
+        have hcm : hcOf b ∈ comps H := List.mem_of_getElem? hcb
+        have hconn := ((mem_components_iff H.ids (endpoints H) hH.1 _ vp hcm hvp vq).1 hvq).2
+        have hpq : Conn P.ids (endpoints P) p q := by
+          by_contra hnc
+          exact hd p q vp vq gp gq hnc hconn
+        have : q ∈ a := (mem_components_iff P.ids (endpoints P) hP.1 a p (hys a ha) hp q).2 ⟨hqn, hpq⟩
+        exact hab this hq
+      · intro x hx y hy e
+        have h1 := ((mem_restrict m b x).1 hx).2
+        have h2 := ((mem_restrict m a y).1 hy).2
+        exact hab h2 (e ▸ h1)
+    · intro y _
+      exact ⟨by simp, fun _ _ _ h => by cases h⟩
+  unfold compEnum
+  rw [hlev]
+  refine (mem_enum P _ [] [] m).2 ⟨ys.map pk, hpicks, ?_⟩
+  symm
+  apply normalize_eq_of_get? P _ m hm.1
+  intro x hx
+  have hxn : x.1 ∈ P.ids := by
+    have e : m.map (·.1) = P.ids := hm.1
+    rw [← e]; exact List.mem_map.2 ⟨x, hx, rfl⟩
+  obtain ⟨pc, hpc, hxpc⟩ := (components_cover P.ids (endpoints P) hP.1 x.1).1 hxn
+  have hpcy : pc ∈ ys := hperm.mem_iff.2 hpc
+  apply get?_of_subset _ m ?_ hkn
+  · simp only [List.nil_append, List.mem_flatMap, List.mem_map]
+    exact ⟨pk pc, ⟨pc, hpcy, rfl⟩, (mem_restrict m pc x).2 ⟨hx, hxpc⟩⟩
+  · intro z hz
+    simp only [List.nil_append, List.mem_flatMap, List.mem_map] at hz
+    obtain ⟨_, ⟨y, -, rfl⟩, hz⟩ := hz
+    exact ((mem_restrict m y z).1 hz).1
+
+/-- Every pattern component has at least one embedding as soon as a separating monomorphism exists. -/
+theorem perCc_ne_nil_of_mono (sel : Sel) (H P : LGraph) (hH : H.WF) (hP : P.WF) (m : Mapping)
+    (hm : IsMono sel H P m) : ∀ maps ∈ perCc sel H P, maps ≠ [] := by
+  intro maps hmaps
+  unfold perCc at hmaps
+  simp only [List.map_map, List.mem_map, Function.comp] at hmaps
+  obtain ⟨pc, hpc, rfl⟩ := hmaps
+  obtain ⟨i, hc, hi, himg⟩ := mono_component_image hH hP hm pc hpc
+  exact List.ne_nil_of_mem (restrict_mem_level hP hm pc hc i hi himg)
+
 end SynKit.SubgraphSearch
